@@ -1,14 +1,163 @@
 /-
   SpecKitV.Drv.ExtDfWrappers — driver operations of the generated region `DfWrappers` (extension point: `dispatch op` returns
   `some handler` for the operations this file serves).  Mathlib-free.
+
+  Every operation executes the GENERATED definitions of lean/SpecKitV/Gen/DfWrappers.lean at `Float` on the object store
+  `[input]` (the input object has reference 0):
+    gdfts  <obj> <fs> <seconds> <cols> <trunc> <inplace> <=suffix>                       Gen.df_timeshift
+    gdfdt  <obj> <cols> <order> <inplace> <=suffix> <ntab> {<key> <m> <coeffs>*m}*ntab   Gen.df_detrend
+    gdfdefaults                                                                          the keyword defaults as translated
+  <obj>   = `0` (not a DataFrame) | `1 <ncols> {<=name> <kind> <values>}*ncols <nrows> <index>`   (<values> = float array: numeric
+            values, or opaque tokens for a non-numeric column; <index> = array of naturals: opaque row labels)
+  <cols>  = `0` (None) | `1 <k> <=name>*k`;   <trunc> = `N` | `B0` | `B1` | `I<int>` | `O` (any other object)
+  <fs>    = a float on the wire; nan / ±inf become PyFloat.nan / pinf / ninf
+  reply   = `RAISE` | `OK <ref> <nobjs> <input unchanged 0|1> <ncols> {<=name> <kind> <n> <values…>}*ncols <nrows> <n> <index…>`
+            (<ref> = reference of the returned frame: 0 = the input object itself; the frame printed is the returned one;
+             "input unchanged" compares object 0 of the new store with the input: labels, kinds, row count, values bit for bit, index)
+  `np.polyfit` is a parameter of `Gen.df_detrend` (passed on to `Gen.polynomial_detrend`): the harness supplies, per array it may be
+  asked about, NumPy's coefficient vectors for the degrees 0 … m-1; the driver answers a request from the table entry whose key is
+  nearest to the requested array (same length; max-abs distance), an empty vector / no entry = "np.polyfit raised".
 -/
 import SpecKitV.Drv.Base
+import SpecKitV.Gen.DfWrappers
 
 namespace Drv.ExtDfWrappers
 open Drv
+open NpDf
+
+def str : M String := do
+  let t ← tok
+  match t.toList with
+  | '=' :: rest => return String.ofList rest
+  | _ => throw s!"str:{t}"
+
+def kindTok : M Char := do
+  let t ← tok
+  match t.toList with
+  | [c] => return c
+  | _ => throw s!"kind:{t}"
+
+def frameIn : M (Option (Frame Float)) := do
+  let isf ← nat
+  if isf == 0 then return none
+  let nc ← nat
+  let mut cols : Array (Col Float) := Array.mkEmpty nc
+  for _ in [0:nc] do
+    let name ← str
+    let k ← kindTok
+    let v ← fltArr
+    cols := cols.push ⟨name, k, arrF v⟩
+  let nrows ← nat
+  let idx ← natArr
+  return some ⟨cols.toList, nrows, arrN idx⟩
+
+def colsIn : M (Option (List String)) := do
+  let has ← nat
+  if has == 0 then return none
+  let k ← nat
+  let mut l : Array String := Array.mkEmpty k
+  for _ in [0:k] do
+    l := l.push (← str)
+  return some l.toList
+
+def truncIn : M PyTrunc := do
+  let t ← tok
+  match t.toList with
+  | ['N'] => return PyTrunc.none
+  | ['B', '0'] => return PyTrunc.bool false
+  | ['B', '1'] => return PyTrunc.bool true
+  | ['O'] => return PyTrunc.other
+  | 'I' :: rest =>
+    match (String.ofList rest).toInt? with
+    | some z => return PyTrunc.int z
+    | none => throw s!"trunc:{t}"
+  | _ => throw s!"trunc:{t}"
+
+def posInf : Float := 1.0 / 0.0
+
+def pyFloat (v : Float) : PyFloat Float :=
+  if v != v then PyFloat.nan else if v == posInf then PyFloat.pinf else if v == -posInf then PyFloat.ninf else PyFloat.fin v
+
+def sameArr (a b : Arr Float) : Bool :=
+  a.n == b.n && (List.range a.n).all (fun i => (a.get i).toBits == (b.get i).toBits)
+
+def sameFrame (a b : Frame Float) : Bool :=
+  a.nrows == b.nrows && a.cols.length == b.cols.length
+    && (List.zip a.cols b.cols).all (fun (x, y) => x.name == y.name && x.kind == y.kind && sameArr x.vals y.vals)
+    && a.index.n == b.index.n && (List.range a.index.n).all (fun i => a.index.get i == b.index.get i)
+
+def frameOut (f : Frame Float) : String :=
+  let cols := f.cols.map (fun c => s!"={c.name} {c.kind} {c.vals.n} " ++ joinF ((List.range c.vals.n).map c.vals.get))
+  s!"{f.cols.length} " ++ " ".intercalate cols ++ s!" {f.nrows} {f.index.n} "
+    ++ " ".intercalate ((List.range f.index.n).map (fun i => toString (f.index.get i)))
+
+def reply (input : Option (Frame Float)) (r : Option (Heap Float × Ref)) : String :=
+  match r with
+  | none => "RAISE"
+  | some (h, ref) =>
+    let same := match input with
+      | some f => h.isFrame 0 && sameFrame (h.frame 0) f
+      | none => !(h.isFrame 0)
+    s!"OK {ref} {h.objs.length} {if same then 1 else 0} " ++ frameOut (h.frame ref)
+
+def opTimeshift : M String := do
+  let input ← frameIn
+  let fs ← flt
+  let seconds ← flt
+  let cols ← colsIn
+  let tr ← truncIn
+  let inplace ← nat
+  let suffix ← str
+  let heap : Heap Float := ⟨[input]⟩
+  return reply input (Gen.df_timeshift heap 0 (pyFloat fs) seconds cols tr (inplace == 1) suffix)
+
+def maxDist (x : Arr Float) (key : Array Float) : Float :=
+  (List.range x.n).foldl (fun m i => let d := Float.abs (x.get i - key.getD i nan); if d > m || d != d then (if d != d then posInf else d) else m) 0.0
+
+def opDetrend : M String := do
+  let input ← frameIn
+  let cols ← colsIn
+  let order ← int
+  let inplace ← nat
+  let suffix ← str
+  let ntab ← nat
+  let mut table : Array (Array Float × Array (Array Float)) := Array.mkEmpty ntab
+  for _ in [0:ntab] do
+    let key ← fltArr
+    let m ← nat
+    let mut cs : Array (Array Float) := Array.mkEmpty m
+    for _ in [0:m] do
+      cs := cs.push (← fltArr)
+    table := table.push (key, cs)
+  let polyfit : Arr Int → Arr Float → Int → Option (Arr Float) := fun _ x deg =>
+    if deg < 0 then none
+    else
+      let best := table.foldl (fun (acc : Option (Float × Array (Array Float))) (e : Array Float × Array (Array Float)) =>
+        if e.1.size != x.n then acc
+        else
+          let d := maxDist x e.1
+          match acc with
+          | none => some (d, e.2)
+          | some (d0, c0) => if d < d0 then some (d, e.2) else some (d0, c0)) none
+      match best with
+      | none => none
+      | some (_, cs) =>
+        let c := cs.getD deg.toNat #[]
+        if c.size == 0 then none else some (arrF c)
+  let heap : Heap Float := ⟨[input]⟩
+  return reply input (Gen.df_detrend polyfit heap 0 cols order (inplace == 1) suffix)
+
+def opDefaults : M String := do
+  let tsCols := match (Gen.df_timeshift_columns_default) with | none => "None" | some _ => "list"
+  let tsTr := match Gen.df_timeshift_truncate_default with | PyTrunc.none => "None" | _ => "other"
+  let dtCols := match (Gen.df_detrend_columns_default) with | none => "None" | some _ => "list"
+  return s!"{tsCols} {tsTr} {Gen.df_timeshift_inplace_default} ={Gen.df_timeshift_suffix_default} {dtCols} {Gen.df_detrend_order_default} {Gen.df_detrend_inplace_default} ={Gen.df_detrend_suffix_default}"
 
 def dispatch (op : String) : Option (M String) :=
   match op with
+  | "gdfts" => some opTimeshift
+  | "gdfdt" => some opDetrend
+  | "gdfdefaults" => some opDefaults
   | _ => none
 
 end Drv.ExtDfWrappers
